@@ -178,6 +178,11 @@ func (p *parser) recover(errp *error) {
 
 // stopParse terminates parsing.
 func (p *parser) stopParse() {
+	if p.lex != nil {
+		// Let the lexer run to completion, otherwise its goroutine
+		// stays blocked forever sending a token nobody receives.
+		p.lex.drain()
+	}
 	p.lex = nil
 }
 
